@@ -56,12 +56,6 @@ Lemma gen_nsec3_ce_src :
                       "typesSet(proof.types, dns.TypeSOA)"]%string.
 Proof. vm_compute. reflexivity. Qed.
 
-(* nsecCovers = covers_of_cmps over the three comparison results *)
-Lemma gen_nsec_covers_src :
-  nsec_covers_src = src ["if cmpON == 0"; "return cmpNameOwner != 0"; "if cmpON < 0";
-                         "return cmpNameOwner > 0 && cmpNameNext < 0";
-                         "return cmpNameOwner > 0 || cmpNameNext < 0"]%string.
-Proof. vm_compute. reflexivity. Qed.
 
 (* aggressiveNSEC3Covers: the same interval rule on hashes *)
 Lemma gen_nsec3_covers_src :
@@ -284,5 +278,540 @@ Proof.
     revert Hn. generalize (fold_label a) (fold_label b). clear.
     induction l as [|x l IH]; intros [|y m] Hn; cbn in *; try reflexivity; [congruence|].
     rewrite IH by lia. apply andb_false_r.
+Qed.
+
+(* ==== dnsname.CompareSuffix / Sub / CanonicalCompare and dnssec.nsecCovers, translated AS A WHOLE by srcgen
+   (miekg dns.NextLabel / dns.CountLabel from the module cache, equalFold, canonicalLabel, escapedTail,
+   compareDecodedFold as generated callees), proved equal to the model's hand-written walks on the presentation
+   strings of escape-free names: labels non-empty, without '.' and without '\\' (plain_name); the root is ".". *)
+(* ---- presentation strings of escape-free names *)
+Definition plain_label (l : list N) : Prop := l <> [] /\ ~ In 46%N l /\ ~ In 92%N l.
+Definition plain_name (n : name) : Prop := Forall plain_label n.
+Definition pres (n : name) : list N := flat_map (fun l => l ++ [46%N]) n.
+Definition present (n : name) : list N := match n with [] => [46%N] | _ => pres n end.
+Definition is_nil {A} (l : list A) : bool := match l with [] => true | _ => false end.
+
+Lemma pres_app a b : pres (a ++ b) = pres a ++ pres b.
+Proof. apply flat_map_app. Qed.
+Lemma pres_no92 n : plain_name n -> ~ In 92%N (pres n).
+Proof.
+  induction 1 as [|l n [_ [_ H92]] _ IH]; cbn; [tauto|]. rewrite !in_app_iff. cbn.
+  intros [[H|[H|[]]]|H]; [tauto | discriminate | tauto].
+Qed.
+
+Lemma go_idx_app_l {A} (d : A) p s k : 0 <= k < go_len p -> go_idx d (p ++ s) k = go_idx d p k.
+Proof. intros Hk. unfold go_len in Hk. rewrite !go_idx_nth by lia. apply app_nth1. lia. Qed.
+Lemma go_idx_in {A} (d : A) p k : 0 <= k < go_len p -> In (go_idx d p k) p.
+Proof. intros Hk. unfold go_len in Hk. rewrite go_idx_nth by lia. apply nth_In. lia. Qed.
+Lemma go_idx_mid {A} (d : A) p x s : go_idx d (p ++ x :: s) (go_len p) = x.
+Proof. replace (go_len p) with (go_len p + 0) by lia. rewrite go_idx_app_r by lia. apply go_idx_0. Qed.
+
+Ltac norm_len := repeat (rewrite go_len_app || rewrite go_len_cons || rewrite (@go_len_nil N) || rewrite (@go_len_nil (list N))).
+Lemma next_label_loop fuel r off e : (1 <= fuel)%nat -> forall l p lf,
+  ~ In 46%N l -> ~ In 92%N (p ++ l) -> (length l < lf)%nat ->
+  go_NextLabel_loop1 fuel lf (p ++ l ++ 46%N :: r) off (go_len p) e =
+  (if is_nil r then GoNext else GoRet (go_len p + go_len l + 1, false),
+   (p ++ l ++ 46%N :: r, off, go_len p + go_len l, e)).
+Proof.
+  intros Hfuel. induction l as [|x l IH]; intros p lf H46 H92 Hlf; (destruct lf as [|lf]; [cbn in Hlf; lia|]).
+  - cbn [go_NextLabel_loop1].
+    assert (C : (go_len p <? go_len (p ++ [] ++ 46%N :: r) - 1) = negb (is_nil r)).
+    { cbn [app]. destruct r as [|y r']; cbn [is_nil negb]; norm_len; [apply Z.ltb_ge | apply Z.ltb_lt; pose proof (go_len_nonneg r')]; lia. }
+    rewrite C. norm_len. rewrite Z.add_0_r. destruct r as [|y r]; cbn [is_nil negb]; [reflexivity|].
+    cbn [app]. rewrite go_idx_mid. cbn [N.eqb negb Pos.eqb].
+    destruct fuel as [|f]; [lia|]. cbn [go_NextLabel_loop2].
+    assert (E : (0 <=? go_len p - 1) && (go_idx 0%N (p ++ 46%N :: y :: r) (go_len p - 1) =? 92)%N = false).
+    { destruct (0 <=? go_len p - 1) eqn:E0; [|reflexivity]. apply Z.leb_le in E0. cbn [andb].
+      rewrite go_idx_app_l by lia. apply N.eqb_neq. intros E. apply H92. rewrite app_nil_r. rewrite <- E. apply go_idx_in. lia. }
+    rewrite E. replace (go_len p - 1 - go_len p) with (-1) by lia. cbn. reflexivity.
+  - cbn [go_NextLabel_loop1].
+    assert (C : (go_len p <? go_len (p ++ (x :: l) ++ 46%N :: r) - 1) = true).
+    { cbn [app]. norm_len. pose proof (go_len_nonneg l). pose proof (go_len_nonneg r). apply Z.ltb_lt. lia. }
+    rewrite C. cbn [app]. rewrite go_idx_mid.
+    assert (Hx : (x =? 46)%N = false) by (apply N.eqb_neq; intros ->; apply H46; left; reflexivity). rewrite Hx. cbn [negb].
+    replace (p ++ x :: l ++ 46%N :: r) with ((p ++ [x]) ++ l ++ 46%N :: r) by (rewrite <- app_assoc; reflexivity).
+    replace (go_len p + 1) with (go_len (p ++ [x])) by (norm_len; lia).
+    rewrite IH; [| intros H'; apply H46; right; exact H' | rewrite <- app_assoc; exact H92 | cbn in Hlf; lia].
+    norm_len. f_equal; [destruct (is_nil r); [reflexivity | do 2 f_equal; lia] | do 2 f_equal; lia].
+Qed.
+
+Lemma next_label fuel p l r :
+  ~ In 46%N l -> ~ In 92%N (p ++ l) -> (length l < fuel)%nat ->
+  go_NextLabel fuel (p ++ l ++ 46%N :: r) (go_len p) = Some (go_len p + go_len l + 1, is_nil r).
+Proof.
+  intros H46 H92 Hf. unfold go_NextLabel.
+  destruct (go_list_eqb N.eqb (p ++ l ++ 46%N :: r) []) eqn:E.
+  { apply go_bytes_eqb_eq in E. destruct p; destruct l; discriminate. }
+  rewrite next_label_loop by (assumption || lia). destruct (is_nil r); reflexivity.
+Qed.
+
+(* ---- slices of p ++ m ++ r *)
+Lemma go_slice_mid {A} (p m r : list A) : go_slice (p ++ m ++ r) (go_len p) (go_len p + go_len m) = m.
+Proof.
+  unfold go_slice, go_len. replace (Z.to_nat (Z.of_nat (length p) + Z.of_nat (length m)) - Z.to_nat (Z.of_nat (length p)))%nat with (length m) by lia.
+  rewrite Nat2Z.id, skipn_app, skipn_all, Nat.sub_diag. cbn. rewrite firstn_app, firstn_all, Nat.sub_diag. cbn. apply app_nil_r.
+Qed.
+Lemma go_slice_from_app {A} (p r : list A) : go_slice_from (p ++ r) (go_len p) = r.
+Proof. unfold go_slice_from, go_len. rewrite Nat2Z.id, skipn_app, skipn_all, Nat.sub_diag. reflexivity. Qed.
+
+Lemma plain_name_app a b : plain_name (a ++ b) <-> plain_name a /\ plain_name b.
+Proof. apply Forall_app. Qed.
+Lemma is_nil_pres n : plain_name n -> is_nil (pres n) = is_nil n.
+Proof. destruct n as [|l n]; [reflexivity|]. intros H. cbn. destruct l; reflexivity. Qed.
+Lemma pres_cons l r : pres (l :: r) = l ++ 46%N :: pres r.
+Proof. unfold pres. cbn. rewrite <- app_assoc. reflexivity. Qed.
+Lemma pres_snoc p l : pres (p ++ [l]) = pres p ++ l ++ [46%N].
+Proof. rewrite pres_app. cbn. rewrite app_nil_r. reflexivity. Qed.
+
+(* NextLabel at a label boundary of a plain presentation string *)
+Lemma next_label_pres fuel p l r : plain_name p -> plain_label l -> plain_name r ->
+  (length l < fuel)%nat ->
+  go_NextLabel fuel (pres p ++ pres (l :: r)) (go_len (pres p)) = Some (go_len (pres (p ++ [l])), is_nil r).
+Proof.
+  intros Hp [Hne [H46 H92]] Hr Hf. cbn [pres flat_map]. rewrite <- app_assoc. cbn [app].
+  change (flat_map (fun l0 : list N => l0 ++ [46%N]) r) with (pres r).
+  rewrite next_label; [| exact H46 | rewrite in_app_iff; intros [H|H]; [exact (pres_no92 p Hp H) | exact (H92 H)] | exact Hf].
+  rewrite is_nil_pres by exact Hr. rewrite pres_snoc. norm_len. do 2 f_equal. lia.
+Qed.
+
+(* CountLabel *)
+Lemma count_label_loop fuel : forall r p lf labels e, plain_name p -> plain_name r -> r <> [] ->
+  (length r <= lf)%nat -> (length (pres r) < fuel)%nat ->
+  fst (go_CountLabel_loop1 fuel lf (pres p ++ pres r) labels (go_len (pres p)) e) = GoRet (labels + Z.of_nat (length r)).
+Proof.
+  induction r as [|l r IH]; intros p lf labels e Hp Hr Hne Hlf Hf; [congruence|].
+  destruct lf as [|lf]; [cbn in Hlf; lia|]. cbn [go_CountLabel_loop1].
+  apply Forall_cons_iff in Hr. destruct Hr as [Hl Hr].
+  assert (Hfl : (length l < fuel)%nat) by (cbn in Hf; rewrite !app_length in Hf; lia).
+  rewrite next_label_pres by assumption.
+  destruct r as [|l2 r]; cbn [is_nil]; [cbn; f_equal; lia|].
+  replace (pres p ++ pres (l :: l2 :: r)) with (pres (p ++ [l]) ++ pres (l2 :: r))
+    by (rewrite pres_snoc, (pres_cons l), <- !app_assoc; reflexivity).
+  rewrite IH; [f_equal; cbn [length]; lia | apply plain_name_app; split; [exact Hp | constructor; [exact Hl | constructor]]
+              | exact Hr | discriminate | cbn in Hlf |- *; lia | cbn in Hf |- *; rewrite !app_length in *; cbn in *; lia].
+Qed.
+Lemma pres_len_ge n : plain_name n -> (2 * length n <= length (pres n))%nat.
+Proof.
+  induction 1 as [|l n [Hne _] _ IH]; [cbn; lia|]. rewrite pres_cons, app_length. cbn [length]. destruct l; [congruence|cbn [length]; lia].
+Qed.
+Lemma count_label fuel n : plain_name n -> n <> [] -> (length (pres n) < fuel)%nat ->
+  go_CountLabel fuel (pres n) = Some (Z.of_nat (length n)).
+Proof.
+  intros Hn Hne Hf. unfold go_CountLabel.
+  destruct (go_list_eqb N.eqb (pres n) [46%N]) eqn:E.
+  { apply go_bytes_eqb_eq in E. pose proof (pres_len_ge n Hn) as H. rewrite E in H. destruct n; [congruence|cbn in H; lia]. }
+  pose proof (count_label_loop fuel n [] fuel 0 false (Forall_nil _) Hn Hne) as H.
+  change (pres [] ++ pres n) with (pres n) in H. change (go_len (pres [])) with 0 in H.
+  pose proof (pres_len_ge n Hn).
+  change (Z.of_nat 0) with 0 in H.
+  destruct (go_CountLabel_loop1 fuel fuel (pres n) 0 0 false) as [c st]. cbn [fst] in H. rewrite H by lia. reflexivity.
+Qed.
+
+(* ---- CompareSuffix *)
+Lemma max_label_fuel fuel p l r : (length (pres (p ++ l :: r)) < fuel)%nat -> (length l < fuel)%nat.
+Proof. rewrite pres_app, pres_cons, !app_length. cbn. lia. Qed.
+
+(* loop 1: the longer a sheds its extra leading labels *)
+Lemma cs_align_a fuel b cb offB : forall d pa ra lf, plain_name pa -> plain_name ra ->
+  (length ra - cb = d)%nat -> (d < lf)%nat -> (length (pres (pa ++ ra)) < fuel)%nat ->
+  go_CompareSuffix_loop1 fuel lf (pres pa ++ pres ra) b (Z.of_nat (length ra)) (Z.of_nat cb) (go_len (pres pa)) offB =
+  (GoNext, (pres pa ++ pres ra, b, Z.of_nat (length ra - d), Z.of_nat cb, go_len (pres (pa ++ firstn d ra)), offB)).
+Proof.
+  induction d as [|d IH]; intros pa ra lf Hpa Hra Hd Hlf Hf; (destruct lf as [|lf]; [lia|]); cbn [go_CompareSuffix_loop1].
+  - replace (Z.of_nat cb <? Z.of_nat (length ra)) with false by (symmetry; apply Z.ltb_ge; lia).
+    rewrite Nat.sub_0_r, app_nil_r. reflexivity.
+  - replace (Z.of_nat cb <? Z.of_nat (length ra)) with true by (symmetry; apply Z.ltb_lt; lia).
+    destruct ra as [|l ra]; [cbn in Hd; lia|]. apply Forall_cons_iff in Hra. destruct Hra as [Hl Hra].
+    rewrite next_label_pres by (try assumption; eapply max_label_fuel; eauto).
+    replace (pres pa ++ pres (l :: ra)) with (pres (pa ++ [l]) ++ pres ra) by (rewrite pres_snoc, (pres_cons l), <- !app_assoc; reflexivity).
+    replace (Z.of_nat (length (l :: ra)) - 1) with (Z.of_nat (length ra)) by (cbn [length]; lia).
+    rewrite IH; [| apply plain_name_app; split; [exact Hpa | constructor; [exact Hl | constructor]] | exact Hra
+                 | cbn [length] in Hd; lia | lia | rewrite <- app_assoc; exact Hf].
+    rewrite <- app_assoc. cbn [length firstn app Nat.sub]. reflexivity.
+Qed.
+
+(* loop 2: the longer b sheds its extra leading labels *)
+Lemma cs_align_b fuel a ca offA : forall d pb rb lf, plain_name pb -> plain_name rb ->
+  (length rb - ca = d)%nat -> (d < lf)%nat -> (length (pres (pb ++ rb)) < fuel)%nat ->
+  go_CompareSuffix_loop2 fuel lf a (pres pb ++ pres rb) (Z.of_nat ca) (Z.of_nat (length rb)) offA (go_len (pres pb)) =
+  (GoNext, (a, pres pb ++ pres rb, Z.of_nat ca, Z.of_nat (length rb - d), offA, go_len (pres (pb ++ firstn d rb)))).
+Proof.
+  induction d as [|d IH]; intros pb rb lf Hpb Hrb Hd Hlf Hf; (destruct lf as [|lf]; [lia|]); cbn [go_CompareSuffix_loop2].
+  - replace (Z.of_nat ca <? Z.of_nat (length rb)) with false by (symmetry; apply Z.ltb_ge; lia).
+    rewrite Nat.sub_0_r, app_nil_r. reflexivity.
+  - replace (Z.of_nat ca <? Z.of_nat (length rb)) with true by (symmetry; apply Z.ltb_lt; lia).
+    destruct rb as [|l rb]; [cbn in Hd; lia|]. apply Forall_cons_iff in Hrb. destruct Hrb as [Hl Hrb].
+    rewrite next_label_pres by (try assumption; eapply max_label_fuel; eauto).
+    replace (pres pb ++ pres (l :: rb)) with (pres (pb ++ [l]) ++ pres rb) by (rewrite pres_snoc, (pres_cons l), <- !app_assoc; reflexivity).
+    replace (Z.of_nat (length (l :: rb)) - 1) with (Z.of_nat (length rb)) by (cbn [length]; lia).
+    rewrite IH; [| apply plain_name_app; split; [exact Hpb | constructor; [exact Hl | constructor]] | exact Hrb
+                 | cbn [length] in Hd; lia | lia | rewrite <- app_assoc; exact Hf].
+    rewrite <- app_assoc. cbn [length firstn app Nat.sub]. reflexivity.
+Qed.
+
+(* equalFold sees the labels with their separating dot *)
+Lemma list_eqb_snoc (c : N) : forall l1 l2, list_eqb N.eqb (l1 ++ [c]) (l2 ++ [c]) = list_eqb N.eqb l1 l2.
+Proof.
+  induction l1 as [|x l1 IH]; intros [|y l2]; cbn.
+  - rewrite N.eqb_refl. reflexivity.
+  - destruct l2; cbn; apply andb_false_r.
+  - destruct l1; cbn; apply andb_false_r.
+  - rewrite IH. reflexivity.
+Qed.
+Lemma equal_fold_dot fuel x y : (length x + 1 < fuel)%nat ->
+  go_equalFold fuel (x ++ [46%N]) (y ++ [46%N]) = Some (label_eqb (fold_label x) (fold_label y)).
+Proof.
+  intros Hf. rewrite gen_equal_fold by (rewrite app_length; cbn; lia). f_equal.
+  unfold label_eqb, fold_label. rewrite !map_app. cbn [map]. change (fold_byte 46) with 46%N. apply list_eqb_snoc.
+Qed.
+
+Lemma slice_label p x r : go_slice (pres p ++ pres (x :: r)) (go_len (pres p)) (go_len (pres (p ++ [x]))) = x ++ [46%N].
+Proof.
+  rewrite pres_snoc, (pres_cons x). replace (x ++ 46%N :: pres r) with ((x ++ [46%N]) ++ pres r) by (rewrite <- app_assoc; reflexivity).
+  rewrite go_len_app. apply go_slice_mid.
+Qed.
+(* loop 3 and the closing comparison: the reset-counter walk of Model.run_walk *)
+Definition cs_tail (fuel : nat) (x : go_ctl Z * (list N * list N * Z * Z * Z * Z * Z)) : option Z :=
+  match x with
+  | (GoRet r_ret, _) => Some r_ret
+  | (GoOof, _) => None
+  | (GoNext, st_loop) => let '(v_a, v_b, v_ca, v_cb, v_offA, v_offB, v_n) := st_loop in
+      match go_equalFold fuel (go_slice_from v_a v_offA) (go_slice_from v_b v_offB) with
+      | Some c_8 => if (v_ca =? 1) && c_8 then Some (v_n + 1) else Some 0
+      | None => None
+      end
+  end.
+Lemma cs_walk fuel cb : forall ra rb pa pb n lf, plain_name pa -> plain_name pb -> plain_name ra -> plain_name rb ->
+  length ra = length rb -> ra <> [] -> (length ra <= lf)%nat ->
+  (length (pres (pa ++ ra)) < fuel)%nat -> (length (pres (pb ++ rb)) < fuel)%nat ->
+  cs_tail fuel (go_CompareSuffix_loop3 fuel lf (pres pa ++ pres ra) (pres pb ++ pres rb) (Z.of_nat (length ra)) cb
+                  (go_len (pres pa)) (go_len (pres pb)) (Z.of_nat n)) = Some (Z.of_nat (run_walk ra rb n)).
+Proof.
+  induction ra as [|x ra IH]; intros rb pa pb n lf Hpa Hpb Hra Hrb Hlen Hne Hlf Hfa Hfb; [congruence|].
+  destruct rb as [|y rb]; [discriminate|]. destruct lf as [|lf]; [cbn in Hlf; lia|].
+  apply Forall_cons_iff in Hra. destruct Hra as [Hx Hra]. apply Forall_cons_iff in Hrb. destruct Hrb as [Hy Hrb].
+  assert (Hfx : (length x + 1 < fuel)%nat) by (rewrite pres_app, pres_cons, !app_length in Hfa; cbn in Hfa; lia).
+  assert (Hfy : (length y + 1 < fuel)%nat) by (rewrite pres_app, pres_cons, !app_length in Hfb; cbn in Hfb; lia).
+  cbn [go_CompareSuffix_loop3].
+  destruct ra as [|x2 ra].
+  - destruct rb; [|discriminate]. cbn [length]. change (1 <? Z.of_nat 1) with false. cbn [cs_tail].
+    rewrite !go_slice_from_app. rewrite !pres_cons. cbn [pres flat_map]. rewrite equal_fold_dot by exact Hfx.
+    cbn [run_walk]. change (Z.of_nat 1 =? 1) with true. cbn [andb].
+    destruct (label_eqb (fold_label x) (fold_label y)); [f_equal; lia | reflexivity].
+  - replace (1 <? Z.of_nat (length (x :: x2 :: ra))) with true by (symmetry; apply Z.ltb_lt; cbn [length]; lia).
+    rewrite !next_label_pres by (assumption || lia).
+    rewrite !slice_label.
+    rewrite equal_fold_dot by exact Hfx. cbn [run_walk].
+    replace (pres pa ++ pres (x :: x2 :: ra)) with (pres (pa ++ [x]) ++ pres (x2 :: ra)) by (rewrite pres_snoc, (pres_cons x), <- !app_assoc; reflexivity).
+    replace (pres pb ++ pres (y :: rb)) with (pres (pb ++ [y]) ++ pres rb) by (rewrite pres_snoc, (pres_cons y), <- !app_assoc; reflexivity).
+    replace (Z.of_nat (length (x :: x2 :: ra)) - 1) with (Z.of_nat (length (x2 :: ra))) by (cbn [length]; lia).
+    assert (Hpa' : plain_name (pa ++ [x])) by (apply plain_name_app; split; [exact Hpa | constructor; [exact Hx | constructor]]).
+    assert (Hpb' : plain_name (pb ++ [y])) by (apply plain_name_app; split; [exact Hpb | constructor; [exact Hy | constructor]]).
+    destruct (label_eqb (fold_label x) (fold_label y)).
+    + replace (Z.of_nat n + 1) with (Z.of_nat (S n)) by lia.
+      apply IH; try assumption; [cbn [length] in Hlen |- *; lia | discriminate | cbn [length] in Hlf |- *; lia
+                                | rewrite <- app_assoc; exact Hfa | rewrite <- app_assoc; exact Hfb].
+    + change 0 with (Z.of_nat 0).
+      apply IH; try assumption; [cbn [length] in Hlen |- *; lia | discriminate | cbn [length] in Hlf |- *; lia
+                                | rewrite <- app_assoc; exact Hfa | rewrite <- app_assoc; exact Hfb].
+Qed.
+
+Lemma run_walk_nil_r a n : run_walk a [] n = n.
+Proof. destruct a; reflexivity. Qed.
+Lemma pres_not_dot n : plain_name n -> n <> [] -> go_list_eqb N.eqb (pres n) [46%N] = false.
+Proof.
+  intros Hn Hne. destruct (go_list_eqb N.eqb (pres n) [46%N]) eqn:E; [|reflexivity].
+  apply go_bytes_eqb_eq in E. pose proof (pres_len_ge n Hn) as H. rewrite E in H. destruct n; [congruence|cbn in H; lia].
+Qed.
+
+(* dnsname.CompareSuffix, the function srcgen translates as a whole (with dns.CountLabel, dns.NextLabel,
+   equalFold as generated callees), on the presentation strings of escape-free names IS the model's
+   reset-counter walk go_compare_suffix *)
+Theorem gen_compare_suffix fuel a b : plain_name a -> plain_name b ->
+  (length (present a) + length (present b) < fuel)%nat ->
+  go_CompareSuffix fuel (present a) (present b) = Some (Z.of_nat (go_compare_suffix a b)).
+Proof.
+  intros Ha Hb Hf. unfold go_CompareSuffix.
+  destruct a as [|xa a']; [cbn; reflexivity|].
+  destruct b as [|xb b']. { unfold present at 2. cbn [go_list_eqb N.eqb Pos.eqb andb orb]. rewrite orb_true_r. unfold go_compare_suffix. rewrite run_walk_nil_r. reflexivity. }
+  assert (Hna : xa :: a' <> []) by discriminate. assert (Hnb : xb :: b' <> []) by discriminate.
+  remember (xa :: a') as a eqn:Ea. remember (xb :: b') as b eqn:Eb.
+  assert (Epa : present a = pres a) by (subst a; reflexivity). assert (Epb : present b = pres b) by (subst b; reflexivity).
+  rewrite Epa, Epb in *. clear Ea Eb Epa Epb.
+  rewrite !pres_not_dot by assumption. cbn [orb].
+  rewrite (count_label fuel a Ha Hna) by lia. rewrite (count_label fuel b Hb Hnb) by lia. cbv zeta.
+  pose proof (pres_len_ge a Ha) as Hga. pose proof (pres_len_ge b Hb) as Hgb.
+  set (d1 := (length a - length b)%nat). set (d2 := (length b - length a)%nat).
+  pose proof (cs_align_a fuel (pres b) (length b) 0 d1 [] a fuel (Forall_nil _) Ha eq_refl) as L1.
+  change (pres [] ++ pres a) with (pres a) in L1. change (go_len (pres [])) with 0 in L1. change ([] ++ a) with a in L1.
+  change ([] ++ firstn d1 a) with (firstn d1 a) in L1.
+  rewrite L1 by (unfold d1; lia).
+  pose proof (cs_align_b fuel (pres a) (length a - d1) (go_len (pres (firstn d1 a))) d2 [] b fuel (Forall_nil _) Hb) as L2.
+  change (pres [] ++ pres b) with (pres b) in L2. change (go_len (pres [])) with 0 in L2. change ([] ++ b) with b in L2.
+  change ([] ++ firstn d2 b) with (firstn d2 b) in L2.
+  rewrite L2 by (unfold d1, d2; lia).
+  assert (Hsplit : forall k (n : name), plain_name n -> plain_name (firstn k n) /\ plain_name (skipn k n))
+    by (intros k n Hn; apply plain_name_app; rewrite firstn_skipn; exact Hn).
+  destruct (Hsplit d1 a Ha) as [Hfa Hsa]. destruct (Hsplit d2 b Hb) as [Hfb Hsb].
+  assert (Hl : length (skipn d1 a) = length (skipn d2 b)) by (rewrite !skipn_length; unfold d1, d2; lia).
+  assert (Hne : skipn d1 a <> []).
+  { intros E. apply (f_equal (@length label)) in E. rewrite skipn_length in E. cbn in E. unfold d1 in E.
+    destruct a; [congruence|]. destruct b; [congruence|]. cbn [length] in E. lia. }
+  pose proof (cs_walk fuel (Z.of_nat (length b - d2)) (skipn d1 a) (skipn d2 b) (firstn d1 a) (firstn d2 b) 0 fuel
+                Hfa Hfb Hsa Hsb Hl Hne) as W.
+  rewrite <- !pres_app, !firstn_skipn in W. rewrite skipn_length in W.
+  unfold go_compare_suffix. fold d1 d2. rewrite <- W by (rewrite ?skipn_length; lia). reflexivity.
+Qed.
+
+
+(* dnsname.Sub *)
+Lemma count_label_present fuel n : plain_name n -> (length (present n) < fuel)%nat ->
+  go_CountLabel fuel (present n) = Some (Z.of_nat (length n)).
+Proof. intros Hn Hf. destruct n as [|l n]; [reflexivity|]. apply count_label; [exact Hn | discriminate | exact Hf]. Qed.
+Theorem gen_sub fuel zone n : plain_name zone -> plain_name n ->
+  (length (present zone) + length (present n) < fuel)%nat ->
+  go_Sub fuel (present zone) (present n) = Some (go_compare_suffix zone n =? length zone)%nat.
+Proof.
+  intros Hz Hn Hf. unfold go_Sub. rewrite gen_compare_suffix by assumption. rewrite count_label_present by (assumption || lia).
+  f_equal. destruct (Nat.eqb_spec (go_compare_suffix zone n) (length zone)) as [E|E]; [rewrite E; apply Z.eqb_refl | apply Z.eqb_neq; lia].
+Qed.
+
+(* ---- CanonicalCompare *)
+Lemma canonical_label_count fuel n : plain_name n -> (length (present n) < fuel)%nat ->
+  go_canonicalLabelCount fuel (present n) = Some (Z.of_nat (length n)).
+Proof.
+  intros Hn Hf. unfold go_canonicalLabelCount. destruct n as [|l n]; [reflexivity|].
+  change (present (l :: n)) with (pres (l :: n)) in *.
+  rewrite pres_not_dot by (assumption || discriminate).
+  destruct (go_list_eqb N.eqb (pres (l :: n)) []) eqn:E.
+  { apply go_bytes_eqb_eq in E. pose proof (pres_len_ge _ Hn) as H. rewrite E in H. cbn in H. lia. }
+  cbn [orb]. rewrite count_label by (assumption || discriminate). reflexivity.
+Qed.
+
+Lemma escaped_tail_plain fuel x : (1 <= fuel)%nat -> x <> [] -> ~ In 92%N x ->
+  go_escapedTail fuel (x ++ [46%N]) (go_len (x ++ [46%N]) - 1) = Some false.
+Proof.
+  intros Hf Hne H92. unfold go_escapedTail. destruct fuel as [|f]; [lia|]. cbn [go_escapedTail_loop1].
+  assert (Ej : go_len (x ++ [46%N]) - 1 - 1 = go_len x - 1) by (unfold go_len; rewrite app_length; cbn [length]; lia).
+  rewrite Ej.
+  assert (Hl : 0 < go_len x) by (unfold go_len; destruct x; [congruence | cbn [length]; lia]).
+  rewrite go_idx_app_l by lia.
+  assert (E : (go_idx 0%N x (go_len x - 1) =? 92)%N = false) by (apply N.eqb_neq; intros E; apply H92; rewrite <- E; apply go_idx_in; lia).
+  rewrite E, andb_false_r. reflexivity.
+Qed.
+
+Lemma canon_label fuel p x r : plain_name p -> plain_label x -> plain_name r ->
+  (length (pres (p ++ x :: r)) < fuel)%nat ->
+  go_canonicalLabel fuel (pres p ++ pres (x :: r)) (go_len (pres p)) (is_nil r) = Some (x, go_len (pres (p ++ [x]))).
+Proof.
+  intros Hp Hx Hr Hf. pose proof Hx as [Hne [H46 H92]]. unfold go_canonicalLabel.
+  assert (Hfx : (length x + 1 < fuel)%nat) by (rewrite pres_app, pres_cons, !app_length in Hf; cbn in Hf; lia).
+  destruct r as [|y r]; cbn [is_nil negb].
+  - rewrite go_slice_from_app. rewrite pres_cons. cbn [pres flat_map]. 
+    rewrite escaped_tail_plain by (assumption || lia).
+    assert (Hl : 0 < go_len x) by (unfold go_len; destruct x; [congruence | cbn [length]; lia]).
+    replace (1 <? go_len (x ++ [46%N])) with true by (symmetry; apply Z.ltb_lt; norm_len; lia).
+    replace (go_len (x ++ [46%N]) - 1) with (go_len x) by (norm_len; lia).
+    replace (go_idx 0%N (x ++ [46%N]) (go_len x)) with 46%N by (symmetry; apply go_idx_mid).
+    cbn [N.eqb Pos.eqb andb negb]. f_equal. f_equal.
+    + unfold go_slice_to, go_len. rewrite Nat2Z.id, firstn_app, firstn_all, Nat.sub_diag. cbn. apply app_nil_r.
+    + rewrite pres_snoc. reflexivity.
+  - rewrite next_label_pres by (assumption || lia). f_equal. f_equal.
+    rewrite pres_snoc, (pres_cons x). norm_len. replace (go_len (pres p) + (go_len x + (1 + 0)) - 1) with (go_len (pres p) + go_len x) by lia.
+    apply go_slice_mid.
+Qed.
+
+(* loops 1 and 2: alignment *)
+Lemma cc_align_a fuel b ca cb offB : forall d pa ra lf, plain_name pa -> plain_name ra ->
+  (d <= length ra)%nat -> (d < lf)%nat -> (length (pres (pa ++ ra)) < fuel)%nat ->
+  go_CanonicalCompare_loop1 fuel lf (pres pa ++ pres ra) b ca (Z.of_nat cb) (go_len (pres pa)) offB (Z.of_nat (cb + d)) =
+  (GoNext, (pres pa ++ pres ra, b, ca, Z.of_nat cb, go_len (pres (pa ++ firstn d ra)), offB, Z.of_nat cb)).
+Proof.
+  induction d as [|d IH]; intros pa ra lf Hpa Hra Hd Hlf Hf; (destruct lf as [|lf]; [lia|]); cbn [go_CanonicalCompare_loop1].
+  - rewrite Nat.add_0_r, Z.ltb_irrefl, app_nil_r. reflexivity.
+  - replace (Z.of_nat cb <? Z.of_nat (cb + S d)) with true by (symmetry; apply Z.ltb_lt; lia).
+    destruct ra as [|l ra]; [cbn in Hd; lia|]. apply Forall_cons_iff in Hra. destruct Hra as [Hl Hra].
+    rewrite next_label_pres by (try assumption; eapply max_label_fuel; eauto).
+    replace (pres pa ++ pres (l :: ra)) with (pres (pa ++ [l]) ++ pres ra) by (rewrite pres_snoc, (pres_cons l), <- !app_assoc; reflexivity).
+    replace (Z.of_nat (cb + S d) - 1) with (Z.of_nat (cb + d)) by lia.
+    rewrite IH; [| apply plain_name_app; split; [exact Hpa | constructor; [exact Hl | constructor]] | exact Hra
+                 | cbn [length] in Hd; lia | lia | rewrite <- app_assoc; exact Hf].
+    rewrite <- app_assoc. cbn [firstn app]. reflexivity.
+Qed.
+Lemma cc_align_b fuel a ca cb offA i : forall d pb rb lf, plain_name pb -> plain_name rb ->
+  (d <= length rb)%nat -> (d < lf)%nat -> (length (pres (pb ++ rb)) < fuel)%nat ->
+  go_CanonicalCompare_loop2 fuel lf a (pres pb ++ pres rb) (Z.of_nat ca) cb offA (go_len (pres pb)) i (Z.of_nat (ca + d)) =
+  (GoNext, (a, pres pb ++ pres rb, Z.of_nat ca, cb, offA, go_len (pres (pb ++ firstn d rb)), i, Z.of_nat ca)).
+Proof.
+  induction d as [|d IH]; intros pb rb lf Hpb Hrb Hd Hlf Hf; (destruct lf as [|lf]; [lia|]); cbn [go_CanonicalCompare_loop2].
+  - rewrite Nat.add_0_r, Z.ltb_irrefl, app_nil_r. reflexivity.
+  - replace (Z.of_nat ca <? Z.of_nat (ca + S d)) with true by (symmetry; apply Z.ltb_lt; lia).
+    destruct rb as [|l rb]; [cbn in Hd; lia|]. apply Forall_cons_iff in Hrb. destruct Hrb as [Hl Hrb].
+    rewrite next_label_pres by (try assumption; eapply max_label_fuel; eauto).
+    replace (pres pb ++ pres (l :: rb)) with (pres (pb ++ [l]) ++ pres rb) by (rewrite pres_snoc, (pres_cons l), <- !app_assoc; reflexivity).
+    replace (Z.of_nat (ca + S d) - 1) with (Z.of_nat (ca + d)) by lia.
+    rewrite IH; [| apply plain_name_app; split; [exact Hpb | constructor; [exact Hl | constructor]] | exact Hrb
+                 | cbn [length] in Hd; lia | lia | rewrite <- app_assoc; exact Hf].
+    rewrite <- app_assoc. cbn [firstn app]. reflexivity.
+Qed.
+
+(* loop 3 and the closing tie-break: Model.walk_verdict, then the label counts *)
+Definition cc_final (v : comparison) (ca cb : Z) : Z :=
+  if negb (cmp_z v =? 0) then cmp_z v else if ca <? cb then -1 else if cb <? ca then 1 else 0.
+Definition cc_tail (x : go_ctl Z * (list N * list N * Z * Z * Z * Z * Z * Z * Z * Z)) : option Z :=
+  match x with
+  | (GoRet r_ret, _) => Some r_ret
+  | (GoOof, _) => None
+  | (GoNext, st_loop) => let '(v_a, v_b, v_ca, v_cb, v_offA, v_offB, v_i, v_i_2, v_verdict, v_i_3) := st_loop in
+      if negb (v_verdict =? 0) then Some v_verdict
+      else if v_ca <? v_cb then Some (-1) else if v_cb <? v_ca then Some 1 else Some 0
+  end.
+Lemma cmp_z_nonzero c : (cmp_z c =? 0) = match c with Eq => true | _ => false end.
+Proof. destruct c; reflexivity. Qed.
+
+Lemma cc_walk fuel ca cb i i2 : forall ra rb pa pb v lf, plain_name pa -> plain_name pb -> plain_name ra -> plain_name rb ->
+  length ra = length rb -> (length ra < lf)%nat ->
+  (length (pres (pa ++ ra)) < fuel)%nat -> (length (pres (pb ++ rb)) < fuel)%nat ->
+  cc_tail (go_CanonicalCompare_loop3 fuel lf (pres pa ++ pres ra) (pres pb ++ pres rb) ca cb
+             (go_len (pres pa)) (go_len (pres pb)) i i2 (cmp_z v) (Z.of_nat (length ra)))
+  = Some (cc_final (walk_verdict ra rb v) ca cb).
+Proof.
+  induction ra as [|x ra IH]; intros rb pa pb v lf Hpa Hpb Hra Hrb Hlen Hlf Hfa Hfb;
+    (destruct lf as [|lf]; [lia|]); cbn [go_CanonicalCompare_loop3].
+  - destruct rb; [|discriminate]. cbn [length]. change (0 <? Z.of_nat 0) with false.
+    unfold cc_tail, cc_final. cbn [walk_verdict]. destruct (negb (cmp_z v =? 0)); [reflexivity|].
+    destruct (ca <? cb); [reflexivity|]. destruct (cb <? ca); reflexivity.
+  - destruct rb as [|y rb]; [discriminate|].
+    apply Forall_cons_iff in Hra. destruct Hra as [Hx Hra]. apply Forall_cons_iff in Hrb. destruct Hrb as [Hy Hrb].
+    replace (0 <? Z.of_nat (length (x :: ra))) with true by (symmetry; apply Z.ltb_lt; cbn [length]; lia).
+    assert (Hlast : forall (r : name), (Z.of_nat (length (x :: ra)) =? 1) = is_nil ra).
+    { intros _. destruct ra; cbn [length is_nil]; [reflexivity | apply Z.eqb_neq; lia]. }
+    rewrite (Hlast ra). cbv zeta.
+    rewrite canon_label by assumption.
+    assert (Hnil : is_nil ra = is_nil rb) by (destruct ra; destruct rb; cbn in *; congruence).
+    rewrite Hnil. rewrite canon_label by assumption.
+    assert (Hfx : (length x < fuel)%nat) by (rewrite pres_app, pres_cons, !app_length in Hfa; cbn in Hfa; lia).
+    assert (Hfy : (length y < fuel)%nat) by (rewrite pres_app, pres_cons, !app_length in Hfb; cbn in Hfb; lia).
+    assert (Hpa' : plain_name (pa ++ [x])) by (apply plain_name_app; split; [exact Hpa | constructor; [exact Hx | constructor]]).
+    assert (Hpb' : plain_name (pb ++ [y])) by (apply plain_name_app; split; [exact Hpb | constructor; [exact Hy | constructor]]).
+    destruct Hx as [_ [_ Hx92]]. destruct Hy as [_ [_ Hy92]].
+    rewrite gen_compare_decoded_fold_plain by assumption.
+    cbn [walk_verdict].
+    replace (pres pa ++ pres (x :: ra)) with (pres (pa ++ [x]) ++ pres ra) by (rewrite pres_snoc, (pres_cons x), <- !app_assoc; reflexivity).
+    replace (pres pb ++ pres (y :: rb)) with (pres (pb ++ [y]) ++ pres rb) by (rewrite pres_snoc, (pres_cons y), <- !app_assoc; reflexivity).
+    replace (Z.of_nat (length (x :: ra)) - 1) with (Z.of_nat (length ra)) by (cbn [length]; lia).
+    rewrite cmp_z_nonzero.
+    destruct (lcmp (fold_label x) (fold_label y)); cbn [negb];
+      (apply IH; try assumption; [cbn [length] in Hlen; lia | cbn [length] in Hlf; lia
+                                 | rewrite <- app_assoc; exact Hfa | rewrite <- app_assoc; exact Hfb]).
+Qed.
+
+
+Lemma cc_loop1_noop fuel lf a b ca cb oA oB i : i <= cb ->
+  go_CanonicalCompare_loop1 fuel (S lf) a b ca cb oA oB i = (GoNext, (a, b, ca, cb, oA, oB, i)).
+Proof. intros H. cbn [go_CanonicalCompare_loop1]. replace (cb <? i) with false by (symmetry; apply Z.ltb_ge; lia). reflexivity. Qed.
+Lemma cc_loop2_noop fuel lf a b ca cb oA oB i i2 : i2 <= ca ->
+  go_CanonicalCompare_loop2 fuel (S lf) a b ca cb oA oB i i2 = (GoNext, (a, b, ca, cb, oA, oB, i, i2)).
+Proof. intros H. cbn [go_CanonicalCompare_loop2]. replace (ca <? i2) with false by (symmetry; apply Z.ltb_ge; lia). reflexivity. Qed.
+Lemma cc_loop3_zero fuel lf a b ca cb oA oB i i2 v :
+  go_CanonicalCompare_loop3 fuel (S lf) a b ca cb oA oB i i2 v 0 = (GoNext, (a, b, ca, cb, oA, oB, i, i2, v, 0)).
+Proof. reflexivity. Qed.
+
+Lemma cc_final_spec v la lb :
+  cc_final v (Z.of_nat la) (Z.of_nat lb) = cmp_z (match v with Eq => Nat.compare la lb | c => c end).
+Proof.
+  unfold cc_final. destruct v; cbn [cmp_z Z.eqb negb]; try reflexivity.
+  destruct (Nat.compare_spec la lb) as [E|E|E]; cbn [cmp_z].
+  - subst. rewrite Z.ltb_irrefl. reflexivity.
+  - replace (Z.of_nat la <? Z.of_nat lb) with true by (symmetry; apply Z.ltb_lt; lia). reflexivity.
+  - replace (Z.of_nat la <? Z.of_nat lb) with false by (symmetry; apply Z.ltb_ge; lia).
+    replace (Z.of_nat lb <? Z.of_nat la) with true by (symmetry; apply Z.ltb_lt; lia). reflexivity.
+Qed.
+
+Lemma cc_finish fuel a b i i2 : plain_name a -> plain_name b ->
+  (length (pres a) + length (pres b) < fuel)%nat ->
+  cc_tail (go_CanonicalCompare_loop3 fuel fuel (pres a) (pres b) (Z.of_nat (length a)) (Z.of_nat (length b))
+             (go_len (pres (firstn (length a - length b) a))) (go_len (pres (firstn (length b - length a) b)))
+             i i2 0 (Z.min (Z.of_nat (length a)) (Z.of_nat (length b))))
+  = Some (cmp_z (go_canonical_compare a b)).
+Proof.
+  intros Ha Hb Hf. set (d1 := (length a - length b)%nat). set (d2 := (length b - length a)%nat).
+  pose proof (pres_len_ge a Ha) as Hga. pose proof (pres_len_ge b Hb) as Hgb.
+  assert (Hsplit : forall k (n : name), plain_name n -> plain_name (firstn k n) /\ plain_name (skipn k n))
+    by (intros k n Hn; apply plain_name_app; rewrite firstn_skipn; exact Hn).
+  destruct (Hsplit d1 a Ha) as [Hfa Hsa]. destruct (Hsplit d2 b Hb) as [Hfb Hsb].
+  assert (Hl : length (skipn d1 a) = length (skipn d2 b)) by (rewrite !skipn_length; unfold d1, d2; lia).
+  pose proof (cc_walk fuel (Z.of_nat (length a)) (Z.of_nat (length b)) i i2 (skipn d1 a) (skipn d2 b) (firstn d1 a) (firstn d2 b) Eq fuel
+                Hfa Hfb Hsa Hsb Hl) as W.
+  rewrite <- !pres_app, !firstn_skipn in W. rewrite skipn_length in W.
+  replace (Z.min (Z.of_nat (length a)) (Z.of_nat (length b))) with (Z.of_nat (length a - d1)) by (unfold d1; lia).
+  change 0 with (cmp_z Eq). rewrite W by lia. rewrite cc_final_spec. unfold go_canonical_compare. fold d1 d2.
+  destruct (walk_verdict (skipn d1 a) (skipn d2 b) Eq); reflexivity.
+Qed.
+
+(* dnsname.CanonicalCompare, translated as a whole (dns.CountLabel / dns.NextLabel / canonicalLabel / escapedTail /
+   compareDecodedFold as generated callees), on the presentation strings of escape-free names IS the model's
+   walk go_canonical_compare *)
+Theorem gen_canonical_compare fuel a b : plain_name a -> plain_name b ->
+  (length (present a) + length (present b) < fuel)%nat ->
+  go_CanonicalCompare fuel (present a) (present b) = Some (cmp_z (go_canonical_compare a b)).
+Proof.
+  intros Ha Hb Hf. unfold go_CanonicalCompare.
+  rewrite !canonical_label_count by (assumption || lia). cbv zeta.
+  destruct fuel as [|f]; [lia|].
+  destruct a as [|xa a']; destruct b as [|xb b'].
+  - reflexivity.
+  - rewrite cc_loop1_noop by (cbn [length]; lia).
+    remember (xb :: b') as b eqn:Eb. assert (Epb : present b = pres b) by (subst b; reflexivity). rewrite Epb in *.
+    pose proof (cc_align_b (S f) (present []) 0 (Z.of_nat (length b)) 0 (Z.of_nat (length (@nil label))) (length b) [] b (S f) (Forall_nil _) Hb (le_n _)) as L2.
+    change (pres [] ++ pres b) with (pres b) in L2. change (go_len (pres [])) with 0 in L2. change ([] ++ b) with b in L2.
+    change ([] ++ firstn (length b) b) with (firstn (length b) b) in L2. cbn [length Nat.add] in L2 |- *.
+    pose proof (pres_len_ge b Hb). rewrite L2 by lia.
+    replace (Z.min (Z.of_nat 0) (Z.of_nat (length b))) with 0 by lia. rewrite cc_loop3_zero.
+    unfold go_canonical_compare. cbn [length Nat.sub skipn walk_verdict]. cbn [Z.eqb negb].
+    replace (Z.of_nat 0 <? Z.of_nat (length b)) with true by (symmetry; apply Z.ltb_lt; subst b; cbn [length]; lia).
+    subst b. reflexivity.
+  - remember (xa :: a') as a eqn:Ea. assert (Epa : present a = pres a) by (subst a; reflexivity). rewrite Epa in *.
+    pose proof (cc_align_a (S f) (present []) (Z.of_nat (length a)) 0 0 (length a) [] a (S f) (Forall_nil _) Ha (le_n _)) as L1.
+    change (pres [] ++ pres a) with (pres a) in L1. change (go_len (pres [])) with 0 in L1. change ([] ++ a) with a in L1.
+    change ([] ++ firstn (length a) a) with (firstn (length a) a) in L1. cbn [length Nat.add] in L1 |- *.
+    pose proof (pres_len_ge a Ha). rewrite L1 by lia.
+    rewrite cc_loop2_noop by lia.
+    replace (Z.min (Z.of_nat (length a)) (Z.of_nat 0)) with 0 by lia. rewrite cc_loop3_zero.
+    unfold go_canonical_compare. cbn [length]. rewrite Nat.sub_0_r, skipn_all. cbn [walk_verdict Z.eqb negb].
+    replace (Z.of_nat (length a) <? Z.of_nat 0) with false by (symmetry; apply Z.ltb_ge; lia).
+    replace (Z.of_nat 0 <? Z.of_nat (length a)) with true by (symmetry; apply Z.ltb_lt; subst a; cbn [length]; lia).
+    subst a. reflexivity.
+  - remember (xa :: a') as a eqn:Ea. remember (xb :: b') as b eqn:Eb.
+    assert (Epa : present a = pres a) by (subst a; reflexivity). assert (Epb : present b = pres b) by (subst b; reflexivity).
+    rewrite Epa, Epb in *. clear Ea Eb Epa Epb.
+    pose proof (pres_len_ge a Ha) as Hga. pose proof (pres_len_ge b Hb) as Hgb.
+    destruct (le_lt_dec (length b) (length a)) as [Hle|Hlt].
+    + pose proof (cc_align_a (S f) (pres b) (Z.of_nat (length a)) (length b) 0 (length a - length b) [] a (S f) (Forall_nil _) Ha) as L1.
+      change (pres [] ++ pres a) with (pres a) in L1. change (go_len (pres [])) with 0 in L1. change ([] ++ a) with a in L1.
+      change ([] ++ firstn (length a - length b) a) with (firstn (length a - length b) a) in L1.
+      replace (length b + (length a - length b))%nat with (length a) in L1 by lia.
+      rewrite L1 by lia. rewrite cc_loop2_noop by lia.
+      replace 0 with (go_len (pres (firstn (length b - length a) b))) at 1 by (replace (length b - length a)%nat with O by lia; reflexivity).
+      apply cc_finish; assumption.
+    + rewrite cc_loop1_noop by lia.
+      pose proof (cc_align_b (S f) (pres a) (length a) (Z.of_nat (length b)) 0 (Z.of_nat (length a)) (length b - length a) [] b (S f) (Forall_nil _) Hb) as L2.
+      change (pres [] ++ pres b) with (pres b) in L2. change (go_len (pres [])) with 0 in L2. change ([] ++ b) with b in L2.
+      change ([] ++ firstn (length b - length a) b) with (firstn (length b - length a) b) in L2.
+      replace (length a + (length b - length a))%nat with (length b) in L2 by lia.
+      rewrite L2 by lia.
+      replace 0 with (go_len (pres (firstn (length a - length b) a))) at 1 by (replace (length a - length b)%nat with O by lia; reflexivity).
+      apply cc_finish; assumption.
+Qed.
+
+(* dnssec.nsecCovers (through canonicalNameCompare): the three-way interval test of Model.covers_of_cmps *)
+Theorem gen_nsec_covers fuel o nx x : plain_name o -> plain_name nx -> plain_name x ->
+  (length (present o) + length (present nx) + length (present x) < fuel)%nat ->
+  go_nsecCovers fuel (present o) (present nx) (present x) =
+  Some (covers_of_cmps (go_canonical_compare o nx) (go_canonical_compare x o) (go_canonical_compare x nx)).
+Proof.
+  intros Ho Hn Hx Hf. unfold go_nsecCovers, go_canonicalNameCompare.
+  rewrite !gen_canonical_compare by (assumption || lia). cbv zeta.
+  destruct (go_canonical_compare o nx); destruct (go_canonical_compare x o); destruct (go_canonical_compare x nx); reflexivity.
 Qed.
 End CompareDecodedFold.
